@@ -233,6 +233,17 @@ def robustness_stream(ctx):
         c['edit_calendars'] = []
         c['outcome_only'] = True
         names = sorted(set(t['resource'] for t in c['tasks']), key=str)
+        if ctx.rng.random() < 0.35:
+            # float dust: remaining work such as 0.1 + 0.2 - 0.3 (5.6e-17 hours) - positive, far below any tolerance, and a
+            # divisor-side hazard for whoever mixes `== 0` with `> epsilon`; ordinary calendars
+            for t in c['tasks']:
+                if t['est'] is not None and ctx.rng.random() < 0.6:
+                    a, b = ctx.rng.choice([(0.1, 0.2), (0.7, 0.1), (1.1, 2.2), (0.3, 0.6)])
+                    t['est_raw'] = float(a + b).hex()
+                    t['spent_raw'] = float(round(a + b, 10)).hex() if ctx.rng.random() < 0.7 else float(a).hex()
+                    t['start'] = t['end'] = None
+            cases.append(c)
+            continue
         c['resources'] = [{'name': nm, 'cal': gen_tod_calendar(ctx.rng)} for nm in names if ctx.rng.random() < 0.8]
         # clock and bound inside a day, near the boundaries of the calendars
         if ctx.rng.random() < 0.7:
